@@ -1,1 +1,33 @@
-(* C17 *)
+(* C17 - every input is announced to cargo for rebuild tracking.  Theorems only. *)
+From Coq Require Import Lia.
+From Ructe Require Import Nom Utf8 Emit Compile Md5 Static Tables Build MapProofs BuildProofs.
+Local Open Scope list_scope.
+
+Section C17.
+  Variable uni_esc uni_alnum : N -> bool.
+  Variable compile : bytes -> bytes -> coutcome.
+  Variable utils_src statics_header : bytes.
+  Variable mm : mime_mode.
+
+  (* every input tree and every build-script program over compile_templates, add_file, add_files,
+     add_file_as, add_files_as (recursive) and add_sass_file: every path the run reads or lists --
+     template directories and sub-directories, template files, static directories at every level,
+     static files, the sass file -- has its own cargo:rerun-if-changed line on stdout *)
+  Theorem reads_are_announced : forall (tree : node) (base : bytes) (cs : list call) (p : bytes),
+    let w := fst (run_script uni_esc uni_alnum compile utils_src statics_header mm tree base cs) in
+    In p (reads w) -> In (Line (b "cargo:rerun-if-changed=" ++ p)) (out w).
+  Proof. intros tree base cs p w I. exact (Ann_run_script uni_esc uni_alnum compile utils_src statics_header mm tree base cs p I). Qed.
+End C17.
+
+(* non-vacuity, and the walked directory of add_files_as in particular (the defect fixed in
+   cc40dba): the directory and its sub-directory are both read and both announced *)
+Example add_files_as_announces_directories :
+  let tree := Dir [(b "st", Dir [(b "a.css", File (b "x")); (b "img", Dir [(b "l.png", File (b "y"))])])] in
+  let w := fst (run_script (fun _ => false) (fun _ => false) (fun _ _ => Panicked) [] [] MNone tree (b "/base")
+                           [PStatics [SAddFilesAs (b "st") (b "pre")]]) in
+  reads w = [b "/base/st"; b "/base/st/a.css"; b "/base/st/img"; b "/base/st/img/l.png"] /\
+  out w = [Line (b "cargo:rerun-if-changed=/base/st"); Line (b "cargo:rerun-if-changed=/base/st/a.css");
+           Line (b "cargo:rerun-if-changed=/base/st/img"); Line (b "cargo:rerun-if-changed=/base/st/img/l.png")].
+Proof. vm_compute. split; reflexivity. Qed.
+
+Redirect "assumptions/C17.reads_are_announced" Print Assumptions reads_are_announced.
